@@ -18,7 +18,7 @@ import (
 //	                     pair as two Security calls
 //	payload kind         inline object, user type, result type, type / inline object / result
 //	                     type whose credentials are inherited through Extend, object with a
-//	                     Reference, type + overriding DSL that adds the credentials, alias of a
+//	                     Reference, user type + overriding DSL, alias of a
 //	                     user type; and: no payload at all, primitive payload (no credentials)
 //	credentials present  EVERY subset of {Username, Password, APIKey k1, APIKey k2, Token,
 //	                     AccessToken} (64): none, exactly the right ones, the right kind for the
@@ -173,8 +173,8 @@ var credPayloads = []credPayload{
 		return nil, &p
 	}},
 	{"type+dsl", true, func(g bool, cr []Call) ([]Call, *Call) {
-		p := C("Payload", UT("CT"), F(cr...))
-		return []Call{C("Type", S("CT"), F(kAB(g)...))}, &p
+		p := C("Payload", UT("CT"), F(C("Required", S("a"))))
+		return []Call{C("Type", S("CT"), F(with(kAB(g), cr...)...))}, &p
 	}},
 	{"alias", true, func(g bool, cr []Call) ([]Call, *Call) {
 		p := C("Payload", UT("CAlias"))
